@@ -102,6 +102,42 @@ func (w *world) wait() {
 	}
 }
 
+func (w *world) sleepTo(t time.Duration) {
+	if d := t - w.s.Now(); d > 0 {
+		simrt.Sleep(d)
+	}
+}
+
+// lapse is the script of an announcer task in the "lapse" variant.
+func (w *world) lapse(who string) {
+	tp := w.tp
+	sec := time.Second
+	g := w.t0 + w.pGroups // first hourly group cleanup
+	// an announcement that lapses after the last 5-minute pass before g, and before g
+	lo, hi := g-5*time.Minute-w.ttl+2*sec, g-w.ttl-2*sec
+	if tp.Chance(300) {
+		lo -= 6 * time.Minute // or one which that pass already collected
+	}
+	w.sleepTo(lo + time.Duration(tp.Draw(int((hi-lo)/sec)+1))*sec)
+	w.announce(who)
+	// again at the instant of the group cleanup (or a second around it)
+	switch tp.Draw(5) {
+	case 0:
+		w.sleepTo(g - sec)
+	case 1:
+		w.sleepTo(g + sec)
+	default:
+		w.sleepTo(g)
+		w.nAtTick++
+	}
+	w.announce(who)
+	if tp.Chance(500) {
+		w.lookup(who)
+	}
+	w.sleepTo(g + time.Duration(2+tp.Draw(8))*sec)
+	w.lookup(who)
+}
+
 func (w *world) announce(who string) {
 	tp, s := w.tp, w.s
 	a := &ann{h: tp.Draw(len(w.hashes)), peer: tp.Draw(len(w.ids)), complete: tp.Draw(2) == 1}
@@ -233,6 +269,17 @@ func body(s *simrt.Sim, tier string) {
 	if tier == "thorough" {
 		nOps += tp.Draw(8)
 	}
+	// Workload variant "lapse" (a third of the runs, out of band): one torrent,
+	// 1-3 peers, a short TTL; everybody announces a few minutes before the
+	// hourly group cleanup so that the whole group has lapsed when it runs
+	// (some entries not yet collected by the 5-minute pass), and announces and
+	// looks up again at that very instant.
+	lapse := s.Tape.Variant%3 == 2
+	if lapse {
+		w.ttl = []time.Duration{20 * time.Second, 90 * time.Second, 4 * time.Minute}[int(s.Tape.Variant/3%3)]
+		nTorrents, nPeers = 1, 1+int(s.Tape.Variant/9%3)
+		s.Probe("lapse_variant")
+	}
 	for i := 0; i < nTorrents; i++ {
 		w.hashes = append(w.hashes, core.NewInfoHashFromBytes([]byte(fmt.Sprintf("torrent-%d", i))))
 	}
@@ -253,10 +300,12 @@ func body(s *simrt.Sim, tier string) {
 	// nanosecond offset (creation sequence), so that no two of them fire at the
 	// same instant. The store's constructor creates its two tickers right
 	// after this call, in the order entries, groups.
-	eps := s.NextTimerEps()
 	w.t0 = s.Now()
-	w.pEntries = 5*time.Minute + eps
-	w.pGroups = time.Hour + eps + 1
+	w.pEntries = 5*time.Minute + s.TimerEpsAfter(1)
+	w.pGroups = time.Hour + s.TimerEpsAfter(2)
+	if w.pGroups-time.Hour < w.pEntries-5*time.Minute {
+		s.Probe("group_pass_before_entries_pass_at_common_instants")
+	}
 	w.store = peerstore.NewLocalStore(peerstore.LocalConfig{TTL: w.ttl}, sclock.New())
 	defer w.store.Close()
 	if pauses > 0 {
@@ -268,6 +317,10 @@ func body(s *simrt.Sim, tier string) {
 		who := fmt.Sprintf("a%d", i)
 		simrt.Go(func() {
 			defer wg.Done()
+			if lapse {
+				w.lapse(who)
+				return
+			}
 			for op := 0; op < nOps; op++ {
 				w.wait()
 				w.announce(who)
@@ -282,6 +335,13 @@ func body(s *simrt.Sim, tier string) {
 		who := fmt.Sprintf("l%d", i)
 		simrt.Go(func() {
 			defer wg.Done()
+			if lapse {
+				w.sleepTo(w.t0 + w.pGroups + time.Duration(tp.Draw(3))*time.Second)
+				w.lookup(who)
+				w.sleepTo(w.t0 + w.pGroups + time.Duration(5+tp.Draw(10))*time.Second)
+				w.lookup(who)
+				return
+			}
 			for op := 0; op < nOps+2; op++ {
 				w.wait()
 				w.lookup(who)
